@@ -39,8 +39,6 @@ LEVEL_TEXT = ('Kernel-checked: invalidate_deps yields the same recompute map for
               'determinism is tested by running the same histories under different PYTHONHASHSEED in separate processes.')
 LEVEL_NOTE = ('Strength: kernel. The runtime hash function is not modelled; seed-dependent value CONTENT (repr of a set) is '
               'found by the subprocess oracle only (known finding C30-set-repr).')
-DISABLED = True
-
 SEEDS_QUICK = ['1', '2', '3']
 SEEDS_THOROUGH = [str(i) for i in range(1, 17)]
 
@@ -336,6 +334,10 @@ Definition flush_check (c : summary * (list action * list action)) : bool :=
 Definition remove_check (c : list (name * Z) * list (name * Z)) : bool :=
   leqb (fun x y => leqb Z.eqb (fst x) (fst y) && Z.eqb (snd x) (snd y))
        (auto_remove_order %s (fst c)) (snd c).
+Definition fcase := (summary * (list action * list action))%%type.
+Definition rcase := (list (name * Z) * list (name * Z))%%type.
+Definition FL (x : fcase) : fcase + rcase := inl x.
+Definition RM (y : rcase) : fcase + rcase := inr y.
 ''' % core.strlit('_grist_Tables')
 
 
@@ -430,7 +432,7 @@ def correspond(ctx):
     cases.append('(%s, (%s, %s))' % (summary_lit(s), acts_lit(out[0]), acts_lit(out[1])))
     ctx.count(('flush', i, summary_lit(s)), nontrivial=bool(out[0] or out[1]), kind='model:flush')
   rc = auto_remove_cases(ctx, ctx.n(150, 1000))
-  both = ['(inl %s)' % c for c in cases] + ['(inr %s)' % c for c in rc]
+  both = ['(FL %s)' % c for c in cases] + ['(RM %s)' % c for c in rc]
   bad = ctx.run_cases('flush', [], '(fun c => match c with inl x => flush_check x | inr y => remove_check y end)',
                       both, shard=800, timeout=1800, extra_defs=FLUSH_DEFS)
   for i in bad[:5]:
